@@ -60,6 +60,7 @@ def dispatch (op : String) (args : List String) (impl : String) : Answer :=
   | "C04.mut" => c04Mut args impl
   | "C18.race" => c18Race args impl
   | "C20.list" => c20List args impl
+  | "C20.validate" => c20Validate args impl
   | "C20.bid" => c20Bid args impl
   | "C20.insc" => c20Insc args impl
   | "C20.reinsc" => c20Reinsc args impl
